@@ -2,3 +2,4 @@
 import RainModel.Model.Blocks
 import RainModel.Model.Tier
 import RainModel.Model.TrackerWire
+import RainModel.Model.Announcer
